@@ -130,6 +130,20 @@ func (e *Engine) Catalog() *Catalog {
 // started. Unlocked transactions serve as a point in time snapshots and can be
 // just be discarded when not being used further.
 func (e *Engine) Begin(ctx context.Context, lock bool) (*Transaction, error) {
+	// check for a nested transaction before taking the engine lock: reading
+	// the session takes the session lock, which the session methods hold
+	// while they call into the engine
+	if lock {
+		ctx = ensureContext(ctx)
+		sess, ok := ctx.Value(sessionKey{}).(*Session)
+		if ok {
+			txn := sess.Transaction()
+			if txn != nil {
+				return nil, fmt.Errorf("detected nested transaction")
+			}
+		}
+	}
+
 	// acquire lock
 	e.mutex.Lock()
 	defer e.mutex.Unlock()
@@ -146,23 +160,11 @@ func (e *Engine) Begin(ctx context.Context, lock bool) (*Transaction, error) {
 		return NewTransaction(e.catalog), nil
 	}
 
-	// ensure context
-	ctx = ensureContext(ctx)
-
-	// check for transaction
-	sess, ok := ctx.Value(sessionKey{}).(*Session)
-	if ok {
-		txn := sess.Transaction()
-		if txn != nil {
-			return nil, fmt.Errorf("detected nested transaction")
-		}
-	}
-
 	// acquire token (without lock); use a tomb-aware context so that a shutdown
 	// unblocks the acquisition
 	verifAt("begin.unlock")
 	e.mutex.Unlock()
-	ok = e.token.Acquire(e.tomb.Context(ctx).Done(), time.Minute)
+	ok := e.token.Acquire(e.tomb.Context(ctx).Done(), time.Minute)
 	verifAt("begin.acquired", ok)
 	e.mutex.Lock()
 	verifAt("begin.relocked", ok)
